@@ -16,6 +16,12 @@ static bool setupTimeDiffers(const SolverCfg& a, const SolverCfg& b)
         s->fmg_its = s->fmg_cycle = 0;
         s->verbose = 0;
     }
+    // b describes the last setup(). A hierarchy set up in COMBINED mode holds both level-0 smoothers and the level-1
+    // right-hand side, i.e. everything any other extrapolation mode needs, and solve() reads the mode itself: after such a
+    // setup() the mode is a solve-time option ("for every extrapolation mode", "option changes ... solve-without-setup").
+    // After a setup() in any other mode a part is missing, and changing the mode without setup() is not generated.
+    if (b.extrapolation == 3)
+        x.extrapolation = y.extrapolation = 0;
     return x.sig() != y.sig();
 }
 
@@ -99,6 +105,8 @@ static Outcome runCase(const KV& c)
         }
         if (k > 0 && !doSetup)
             o.cls("options_changed_without_setup");
+        if (k > 0 && !doSetup && cfg.extrapolation != setupCfg.extrapolation)
+            o.cls("extrapolation_mode_changed_without_setup");
         if (k > 0) {
             const SolverCfg& pv = cfgs[k - 1];
             if (pv.cycle != cfg.cycle && !doSetup) o.cls("changed_cycle_without_setup");
@@ -218,6 +226,12 @@ static KV genCase()
             // only options that solve() reads itself change (one to three of them), and setup() is NOT called again:
             // the next solve must behave like a fresh object that was given the new values before its setup()
             const int nchg = rint(1, 3);
+            if (s.extrapolation == 3 && rint(0, 2) == 0) {
+                // another extrapolation mode on a hierarchy that was (most likely) set up in COMBINED mode; runCase calls
+                // setup() anyway if it was not
+                s.extrapolation = rint(0, 2);
+                c.putI("r" + std::to_string(k) + "_mode_changed_without_setup", 1);
+            }
             for (int q = 0; q < nchg; q++)
                 switch (rint(0, 7)) {
                 case 0:
